@@ -29,6 +29,7 @@ def check(ctx: Ctx) -> None:
     r1_r2(ctx, mg)
     r3(ctx)
     r6_no_delete(ctx)
+    r2_fallback_on_failure(ctx)
     r4(ctx)
     r5(ctx)
 
@@ -159,6 +160,39 @@ def r3(ctx: Ctx) -> None:
                          f'shutil.move({src(e.path)}, {dst}) without testing that {dst} does not exist: an existing file is silently overwritten (a previous .bak backup is lost) and an existing '
                          f'directory makes shutil.move nest the source inside it (config -> tally/config/config)', e.node)
     ctx.need(not (n < 3), f'C15.R3: only {n} moves found')
+
+
+def r2_fallback_on_failure(ctx: Ctx) -> None:
+    """A migration that failed (I/O error while writing merchants.rules) leaves the run on the CSV rules: the freshly written file is only read back
+    where `_migrate_csv_to_rules(…)` is known to have returned true."""
+    proj = ctx.proj
+    f = proj.func('cli._check_merchant_migration')
+    fl = get_flow(proj, f)
+    mig = [c for c in fl.calls('_migrate_csv_to_rules')]
+    if not mig:
+        ctx.unknown('C15.R2', f, '_check_merchant_migration no longer calls _migrate_csv_to_rules')
+    flags = {src(c) for c in mig}
+    for c in mig:
+        st = fl.stmt_of(c)
+        if isinstance(st, ast.Assign) and len(st.targets) == 1 and isinstance(st.targets[0], ast.Name) and st.value is c:
+            flags.add(st.targets[0].id)
+    n = 0
+    for c in fl.calls('get_all_rules'):
+        if not c.args:
+            continue
+        at_ = fl.atoms(c.args[0], c)
+        if "const:'merchants.rules'" not in at_ or 'key:config:_merchants_file' in at_:
+            continue
+        if not any(fl.cfg.reachable_without(fl.cfg.nid(fl.stmt_of(m)), fl.cfg.nid(fl.stmt_of(c)), set()) for m in mig):
+            continue
+        n += 1
+        g = fl.cfg.guard_literals(fl.stmt_of(c))
+        ok = any(tr and t in flags for t, tr in g)
+        ctx.check(ok, 'C15.R2', f, 'read-back-after-success', 'the migrated file is read back only after a successful migration',
+                  f'{src(c)[:60]!r} is reached whether or not the migration succeeded (guards {sorted(g)}): when writing merchants.rules fails, the run classifies with an '
+                  f'empty rule set although merchant_categories.csv is untouched', c)
+    if n == 0:
+        ctx.unknown('C15.R2', f, 'no read-back of the freshly migrated merchants.rules found after the migration call')
 
 
 def r6_no_delete(ctx: Ctx) -> None:
